@@ -16,6 +16,12 @@ function answer(s, op, a) {
       case 'valid': { const v = s.valid(a[0]); return v === null ? 'null' : v; }
       case 'cmp': return String(s.compare(a[0], a[1]));
       case 'validRange': { const r = s.validRange(a[0]); return r === null ? 'null' : (r === '' ? '<empty-string>' : r); }
+      case 'satm': {
+        if (s.validRange(a[0]) === null) return 'E';
+        let out = '';
+        for (const v of a.slice(1)) { out += (s.valid(v) === null) ? 'x' : (s.satisfies(v, a[0]) ? '1' : '0'); }
+        return out === '' ? '-' : out;
+      }
       case 'sat': { if (s.validRange(a[1]) === null) return 'E'; if (s.valid(a[0]) === null) return 'E'; return s.satisfies(a[0], a[1]) ? '1' : '0'; }
     }
   } catch (e) { return 'E'; }
